@@ -141,9 +141,9 @@ type byzRun struct {
 }
 
 func unitC07byz(e common.Env, p *common.Part) {
-	p.Rule = "Byzantine members are one or more real disc.Member instances under the same identifier with filtered inputs and re-routed outputs, following targeted plans under which honest members can still complete: partition-and-lie (one Byzantine instance per honest group, partition healed at a PRNG instant), shadow coalition (Byzantine instances that hear only each other and a phantom of a silent member), two-faced without partition, outsider and member replaying every captured transmission under their own identity, response flood (several instances of one identifier answer replayed queries with different views after the victim completed); distinct key = (plan, parameters, seed); non-trivial when an honest member completed or a Byzantine transmission was processed by an honest member"
-	plans := []string{"partition-and-lie", "shadow-coalition", "two-faced", "replay", "response-flood", "shadow-coalition", "partition-and-lie"}
-	n := e.Pick(140, 3000)
+	p.Rule = "Byzantine members are one or more real disc.Member instances under the same identifier with filtered inputs and re-routed outputs, following targeted plans under which honest members can still complete: partition-and-lie (one Byzantine instance per honest group, partition healed at a PRNG instant), shadow coalition (Byzantine instances that hear only each other and a phantom of a silent member), two-faced without partition, outsider and member replaying every captured transmission under their own identity, response flood (several instances of one identifier answer replayed queries with different views after the victim completed), late surplus announcer (one member more than expected joins at a PRNG instant around the moment the views converge) and surplus at a decision point (the victim is held at a verif point of Synchronize while the surplus member announces itself); distinct key = (plan, parameters, seed); non-trivial when an honest member completed or a Byzantine transmission was processed by an honest member"
+	plans := []string{"partition-and-lie", "shadow-coalition", "two-faced", "replay", "response-flood", "shadow-coalition", "partition-and-lie", "late-surplus-announcer", "surplus-at-decision-point", "surplus-at-decision-point"}
+	n := e.Pick(400, 6000)
 	for i := 0; i < n; i++ {
 		if !e.Mine(i) || p.ViolationCount() >= 3 {
 			continue
@@ -218,6 +218,69 @@ func runByzPlan(plan string, idx int, rng *rand.Rand) byzRun {
 		}
 		wg.Wait()
 		return byzRun{net: net, expected: 3, note: fmt.Sprintf("ids=%v byz=%d heal=%v", ids, b, heal)}
+	case "late-surplus-announcer":
+		// expected E members start together; one further configured member (honest or not, it behaves honestly) joins at a
+		// PRNG instant around the moment the views converge. Whatever the instant, nobody may complete with more than E members.
+		E := 2 + rng.Intn(3)
+		ids := pickIDs(rng, E+1, idx%2 == 1)
+		rng.Shuffle(len(ids), func(i, j int) { ids[i], ids[j] = ids[j], ids[i] })
+		universe := append([]uint16{}, ids...)
+		sort.Slice(universe, func(i, j int) bool { return universe[i] < universe[j] })
+		net := newDnet(universe, rng)
+		net.maxDelay = time.Duration(50+rng.Intn(250)) * time.Microsecond
+		ctx, cancel := context.WithTimeout(context.Background(), time.Duration(25+rng.Intn(30))*time.Millisecond)
+		defer cancel()
+		ivl := time.Duration(300+rng.Intn(900)) * time.Microsecond
+		for _, h := range ids[:E] {
+			net.start(ctx, &wg, net.add(h, "honest", true), topic, E, ivl)
+		}
+		late := time.Duration(rng.Intn(2500)) * time.Microsecond
+		time.Sleep(late)
+		net.start(ctx, &wg, net.add(ids[E], "honest", true), topic, E, ivl)
+		wg.Wait()
+		return byzRun{net: net, expected: E, note: fmt.Sprintf("expected=%d members=%v surplus=%d joined after %v", E, ids[:E], ids[E], late)}
+	case "surplus-at-decision-point":
+		// the victim is HELD at a verif point of Synchronize (after its views agreed / after the size check / before the
+		// continuation) while one further configured member announces itself to it; then it is released
+		E := 2 + rng.Intn(3)
+		ids := pickIDs(rng, E+1, idx%2 == 1)
+		rng.Shuffle(len(ids), func(i, j int) { ids[i], ids[j] = ids[j], ids[i] })
+		universe := append([]uint16{}, ids...)
+		sort.Slice(universe, func(i, j int) bool { return universe[i] < universe[j] })
+		net := newDnet(universe, rng)
+		point := []string{"sync.viewsAgree", "sync.sizeChecked", "sync.beforeContinuation"}[idx%3]
+		ctx, cancel := context.WithTimeout(context.Background(), 120*time.Millisecond)
+		defer cancel()
+		victim := net.add(ids[0], "honest", true)
+		h := holdAt(victim, point)
+		defer dropHold(victim)
+		var seen int32
+		surplus := ids[E]
+		net.tap = func(src, dst uint16, data []byte) {
+			if src == surplus && dst == victim.id {
+				atomic.AddInt32(&seen, 1)
+			}
+		}
+		net.start(ctx, &wg, victim, topic, E, interval)
+		for _, o := range ids[1:E] {
+			net.start(ctx, &wg, net.add(o, "honest", true), topic, E, interval)
+		}
+		held := false
+		select {
+		case <-h.arrived:
+			held = true
+			// the surplus member announces itself now; wait until the victim has processed at least two of its messages
+			net.start(ctx, &wg, net.add(surplus, "honest", true), topic, E, interval)
+			deadline := time.Now().Add(60 * time.Millisecond)
+			for atomic.LoadInt32(&seen) < 2 && time.Now().Before(deadline) {
+				time.Sleep(200 * time.Microsecond)
+			}
+			time.Sleep(300 * time.Microsecond)
+		case <-ctx.Done():
+		}
+		close(h.release)
+		wg.Wait()
+		return byzRun{net: net, expected: E, note: fmt.Sprintf("expected=%d victim=%d held at %s=%v surplus=%d announcements processed=%d", E, victim.id, point, held, surplus, atomic.LoadInt32(&seen))}
 	case "shadow-coalition":
 		// universe: honest callers H, Byzantine b (and in odd runs a second one), phantom ph: a configured member that is silent
 		// towards the honest members but whose instance talks to the coalition. expected = coalition size incl. phantom.
